@@ -16,34 +16,34 @@ CLAIMS = {
          "Decides structural necessary conditions of 'equal content costs no fresh bytes' and 'reused + fresh = size', not the numbers: every op written is counted exactly once; differ and signer use the same weak and strong hash functions; the rolling state is reset after a match and the lookup skipped only while rolling; the library holds every hash and the matcher gives up only after searching the whole bucket. Byte counts, the per-edit bound and the rolling-update arithmetic are NOT decided.",
          "DESIGN.md 4 (C08)"),
  "C11": ("value provenance of block-range fields, control-dependence of the range merge, pending-flush path rules (incl. deferred closures), who-is-called confinement to the cleaner, literal-shape bound rule for data payloads (go/ssa)",
-         "Decides structural necessary conditions, not the behaviour: block ranges are built from the matched library block with span 1 and merged only under same-file contiguity; the pending range is flushed before data ops and on every return; every op leaves through the cleaner, which drops only empty non-leading data ops; every data payload is bounded by MaxDataOp by construction; empty windows never match. Replay equality and the exhaustive small-alphabet enumeration are NOT decided (dynamic family).",
+         "Decides structural necessary conditions, not the behaviour: block ranges are built from the matched library block with span 1 and merged only under same-file contiguity; the pending range is flushed before data ops and on every return; every op leaves through the cleaner, which drops only empty non-leading data ops; every data payload is bounded by MaxDataOp by construction; the end of the pending data follows every move of the hash window's start; empty windows never match. Replay equality and the exhaustive small-alphabet enumeration are NOT decided (dynamic family).",
          "DESIGN.md 4 (C11)"),
  "C14": ("emit/advance pairing path rules, flush-before-marker ordering with error gating, control dependence on the resume offset, set agreement of emitted vs applied op types, bound-by-read-count guard rule (go/ssa)",
-         "Decides structural necessary conditions, not the behaviour: overlay ops are written only by fresh/skip/Finalize and each advances readOffset by its extent; Finalize flushes (checked) before the end marker; magic/header only at offset 0 with seeded counters; the applier handles every emitted op type and succeeds only at the marker; the old-file window is inspected only below the count read; the committer truncates at the applier's final position. Window/skip index arithmetic is NOT decided.",
+         "Decides structural necessary conditions, not the behaviour: overlay ops are written only by fresh/skip/Finalize and each advances readOffset by its extent; Finalize flushes (checked) before the end marker; magic/header only at offset 0 with seeded counters; the applier handles every emitted op type and succeeds only at the marker; the old-file window is inspected only below the count read, and filled by a read that cannot come back short in mid-file (full read, or no bufio reader); the committer truncates at the applier's final position. Window/skip index arithmetic is NOT decided.",
          "DESIGN.md 4 (C14)"),
  "C02": ("effect confinement with interprocedural path provenance (which folder a file-system mutator's path derives from, which API can reach it), dominance/error-gating of commit phases, comparator shape, set coverage of entry kinds, unification-based index-space inference (go/ssa + call graph)",
-         "Decides structural necessary conditions, not the behaviour: every file-system mutator reachable from the overlay bowl's patching-phase API works under the stage folder and none touches the output folder or target pool, while every output-folder mutator is reachable only from Commit (the 'old build intact until commit' sentence, structurally); commit phases run in the required order with errors checked; ghosts are deleted longest path first and detected for files, symlinks and dirs; overlays end with truncation; no integer is used both as a new-build and as an old-build file index. That the commit result equals the new build, map-order independence of applyTranspositions and kind changes are NOT decided.",
+         "Decides structural necessary conditions, not the behaviour: every file-system mutator reachable from the overlay bowl's patching-phase API works under the stage folder and none touches the output folder or target pool, while every output-folder mutator is reachable only from Commit (the 'old build intact until commit' sentence, structurally); commit phases run in the required order with errors checked; ghosts are deleted longest path first and detected for files, symlinks and dirs; overlays end with truncation; no integer is used both as a new-build and as an old-build file index; a directory of the new build is made only after Lstat of its path. That the commit result equals the new build, map-order independence of applyTranspositions and kind changes are NOT decided.",
          "DESIGN.md 4 (C02)"),
  "C03": ("set agreement over type-checked field accesses (saved vs restored checkpoint fields, per type and per Save/Resume implementation; gob registrations), literal-completeness, must-pass-through / error-gating path rules, constant flag checks, control-dependence provenance (go/ssa)",
-         "Decides structural necessary conditions, not the behaviour: every checkpoint field is saved and restored (type level, and per Bowl/EntryWriter implementation: what its Save writes its own Resume reads); the literal handed to SaveConsumer.Save is complete; entry writers report an offset only after Flush and a checked fsync; reopening never truncates and repositions from the checkpoint (both offsets for the overlay writer); every successful series end finalizes the writer; work lists are de-duplicated by their owners; checkpoint payload types are gob-registered; checkpoints are requested inside the loops and offered. Agreement of the four state layers at every interruption point and content equality after resume are NOT decided.",
+         "Decides structural necessary conditions, not the behaviour: every checkpoint field is saved and restored (type level, and per Bowl/EntryWriter implementation: what its Save writes its own Resume reads); the literal handed to SaveConsumer.Save is complete; entry writers report an offset only after Flush and a checked fsync; reopening never truncates and repositions from the checkpoint (both offsets for the overlay writer); every successful series end finalizes the writer; work lists are de-duplicated by a completed search; checkpoint payload types are gob-registered; checkpoints are requested inside the loops and offered, and never between reading a message and applying it. Agreement of the four state layers at every interruption point and content equality after resume are NOT decided.",
          "DESIGN.md 4 (C03)"),
  "C04": ("contradiction rule over three sibling functions (empty-file special case), writer/reader stream-prefix agreement extracted from dominance-ordered framing events per stream root, value-provenance rule for the shared read, provenance of symlink-destination comparisons (go/ssa)",
          "Decides structural necessary conditions, not the behaviour: producer, reader and grouping of signatures agree on the empty-file hash; the signature stream's and the patch stream's non-loop prefixes (magic, header, compression point, containers and their identity/order) are the same on every writer and reader; diff and signature consume two Reader()s of one multiread over pool.GetReader(fileIndex) for the same index; symlink destinations are compared modulo FromSlash only. Block boundaries under re-chunking and hash values are NOT decided.",
          "DESIGN.md 4 (C04)"),
  "C05": ("control-dependence (edge-dominance) rules over go/ssa: healthy-verdict guards, literal-shape ordering of Wound ranges, guard-token classification of wound emission sites, must-consume path rule for the aggregation loop",
-         "Decides structural necessary conditions, not the behaviour: a block is declared healthy only under index-in-range and strong-hash equality (both sibling validators); every FILE/CLOSED_FILE wound literal has Start <= End by construction; every deviation test the property enumerates (missing/kind/destination/open error/shorter/longer) controls a wound emission; the aggregator keeps, merges or forwards every incoming wound and flushes before close. That reported wounds cover every differing offset (block arithmetic) is NOT decided.",
+         "Decides structural necessary conditions, not the behaviour: a block is declared healthy only under index-in-range and strong-hash equality (both sibling validators); every FILE/CLOSED_FILE wound literal has Start <= End by construction; every deviation test the property enumerates (missing/kind/destination/open error/shorter/longer) controls a wound emission; the aggregator keeps, merges or forwards every incoming wound and flushes before close; the per-file check succeeds only after a wound or a full pass through the validating writer. That reported wounds cover every differing offset (block arithmetic) is NOT decided.",
          "DESIGN.md 4 (C05)"),
  "C06": ("set agreement (emitted vs handled wound kinds), error-classification rule over predicate call trees, case-region path rules (must-pass-through with edge filtering) over go/ssa",
-         "Decides structural necessary conditions, not the behaviour: every emitted wound kind has a healer case; Lstat/Readlink errors in the directory and symlink passes are returned only after testing both not-exist and not-a-directory; the DIR/SYMLINK/FILE repair cases perform their repair actions in the required order on every success path (Lstat before trusting a directory, remove before create, parent before link, mark before queue); the heal queue cannot block. That healed content equals the signed content and all validator/healer interleavings are NOT decided.",
+         "Decides structural necessary conditions, not the behaviour: every emitted wound kind has a healer case; Lstat/Readlink errors in the directory and symlink passes are returned only after testing both not-exist and not-a-directory; the DIR/SYMLINK/FILE repair cases perform their repair actions in the required order on every success path (Lstat before trusting a directory, remove before create, parent before link, mark whenever queued); no function that changes a tree examines a path with os.Stat (link-following). That healed content equals the signed content and all validator/healer interleavings are NOT decided.",
          "DESIGN.md 4 (C06)"),
  "C09": ("must-pass-through / verdict-gating path rules, escape (who-may-touch) analysis of the wrapped reader, value-provenance rules for the position mirror, over go/ssa",
-         "Decides structural necessary conditions, not the behaviour: the wrapped reader is read only after validateBlock and only on its nil verdict; raw pool readers never escape the validating wrapper; validateBlock restores the saved position on every path after moving the reader; the wrapper's offset mirrors the wrapped reader's position at construction, Seek and Read. Which damage a given patch happens to read, and the EOF case of 64KiB-multiple files (F13, arithmetic), are NOT decided.",
+         "Decides structural necessary conditions, not the behaviour: the wrapped reader is read only after validateBlock and only on its nil verdict; raw pool readers never escape the validating wrapper; validateBlock restores the saved position on every path after moving the reader; the wrapper's offset mirrors the wrapped reader's position at construction, Seek and Read; the read cache's chunk size is a constant dividing the signed block size (a chunk read never covers an unchecked block). Which damage a given patch happens to read, and the EOF case of 64KiB-multiple files (F13, arithmetic), are NOT decided.",
          "DESIGN.md 4 (C09)"),
  "C12": ("end-of-series must-pass-through, offset-accounting path rules with nil/len edge filtering, slot-bookkeeping provenance rules in the read cache, reaching-definition divisor rule (go/ssa)",
          "Decides structural necessary conditions, not the behaviour: every series ends with an Eof control on every success path; Apply positions the cache at OldOffset before adding and advances OldOffset by len(Add) and Seek exactly once on success; the cache stores a new chunk in a free slot, marks it, tells the LRU, frees exactly the evicted slot through a registered callback and frees all on Reset; partition arithmetic cannot divide by zero. That add+copy tile the new file, the suffix search and the cache's index arithmetic are NOT decided.",
          "DESIGN.md 4 (C12)"),
  "C13": ("who-may-call / effect confinement of source reads, must-update path rules, typestate shape of the three-state save protocol, set agreement of codec registrations and magic constants, call-graph unreachability (go/ssa + CHA)",
-         "Decides structural necessary conditions, not the behaviour: every read of the underlying source happens in the counting reader or Resume and updates the counted offset; framing reads go through the counting reader; the save protocol's transitions and the content of the popped checkpoint have the required shape and PopCheckpoint is unreachable from inside ReadMessage; compressors and decompressors are registered pairwise for the same algorithms with matching implementations, NONE is a pass-through; every magic written has a reader; Read counts are never discarded in package wire. The round trip itself and savior's decompressor checkpoints are NOT decided.",
+         "Decides structural necessary conditions, not the behaviour: every read of the underlying source happens in the counting reader or Resume and updates the counted offset; framing reads go through the counting reader; the save protocol's transitions and the content of the popped checkpoint have the required shape and PopCheckpoint is unreachable from inside ReadMessage; compressors and decompressors are registered pairwise for the same algorithms with matching implementations, NONE is a pass-through; every magic written has a reader; Read counts are never discarded in package wire; ReadMessage resets and decodes on every success path. The round trip itself and savior's decompressor checkpoints are NOT decided.",
          "DESIGN.md 4 (C13)"),
  "C17": ("call-graph effect confinement (which calls can reach a bowl write or pool read), transitive control-dependence of the skip decision on the whitelist lookup, sibling agreement of message types read by the skip and process paths with generated-struct-tag aliasing check, must-assign path rule (go/ssa)",
          "Decides structural necessary conditions, not the behaviour: bowl writes/transposes and old-build pool reads are reachable from Resume only through processFile and never from skipFile; skipping is decided by the whitelist lookup keyed by the checked header index and is exclusive with processing; the skip path decodes every series message type with its own type (or one that cannot alias the end marker); the series kind skipFile dispatches on is assigned from the header just read. Equality of the selected files with full application is NOT decided.",
@@ -52,7 +52,7 @@ CLAIMS = {
          "Decides structural necessary conditions, not byte-identical output: at the differ's four fork sites no two concurrent units (or instances, or a unit and the parent before the join) touch overlapping locations with a write and no common lock; ranges over maps on the diff/optimize call tree have order-insensitive bodies; matches reach the bsdiff writer through one sender in token-passing order; time/CPU-count/GOMAXPROCS/random values reach only statistics and diagnostics. Slice-element races, races inside dependencies and short-read independence are NOT decided.",
          "DESIGN.md 3.2, 4 (C15)"),
  "C19": ("fork-site access-set analysis with file pseudo-variables and must-locksets, per-path result-send counting (go/ssa)",
-         "Decides structural necessary conditions, not tree equality: ExtractZip's workers (concurrent instances of one goroutine) and the parent before the join share no location with a write and no common lock (entry counters, progress, flags); the resume file is written only under one lock common to all write sites; every worker sends exactly one result on every path into a channel buffered for all workers and the parent collects them. Whether the marker value is a contiguous high-water mark is value-level and NOT decided (a seeded change of that kind is recorded as missed).",
+         "Decides structural necessary conditions, not tree equality: ExtractZip's workers (concurrent instances of one goroutine) and the parent before the join share no location with a write and no common lock (entry counters, progress, flags); the resume file is written only under one lock common to all write sites; every worker sends exactly one result on every path into a channel buffered for all workers and the parent collects them; the done-set behind the marker is keyed by the entry index; no tree-changing function of the archiver examines a path with os.Stat (link-following). Whether the marker value is a contiguous high-water mark is value-level and NOT decided (a seeded change of that kind is recorded as missed).",
          "DESIGN.md 3.2, 4 (C19)"),
  "C16": ("channel-protocol shape rules over go/ssa: per-path send counting (defers included), edge-dominance of loop exits by channel-closed tests, dominance ordering of the shutdown sequence, select-case control dependence",
          "Decides structural necessary conditions, not the behaviour: the consumer goroutine drains the wound channel until closed; worker and consumer each send exactly one result on every path; every result-receiving select case re-puts and closes 'cancelled', which is closed nowhere else; the shutdown sequence dominates the return in order; relay/aggregation goroutines exit only on close and always signal; the fail-fast consumer never returns nil from its cancellation case. These quantify over all paths of the protocol code, which no schedule sample can; full deadlock freedom over all interleavings is NOT decided.",
